@@ -140,4 +140,27 @@ def joinOrDie (timeout interval : Nat) (d : Option Nat) (h : Nat) (tie : Bool) :
 
 def effectiveTimeoutS (timeoutS : Option Nat) : Nat := timeoutS.getD OpenHTF.Gen.c12_defaultPhaseTimeoutS
 
+/-! ### the lock probe of `kill()`: reading `locked()` (as `kTry` above, after the `fix:` commit) versus
+try-acquire + release (before it). The lock: `none` = free, `some 0` = held by the target thread,
+`some (k+1)` = held by killer `k` for the duration of its probe. -/
+
+structure ProbeS where
+  owner : Option Nat := none
+  sawRunning : Nat → Option Bool := fun _ => none     -- what each killer's probe concluded
+
+inductive ProbeAct
+  | tryAcquire (k : Nat)      -- `self._running_lock.acquire(False)`
+  | release (k : Nat)         -- `self._running_lock.release()` after a successful probe
+deriving DecidableEq, Repr
+
+def probeStep (s : ProbeS) : ProbeAct → ProbeS
+  | .tryAcquire k =>
+    if (s.sawRunning k).isSome then s
+    else if s.owner = none then { owner := some (k + 1), sawRunning := fun j => if j = k then some false else s.sawRunning j }
+    else { s with sawRunning := fun j => if j = k then some true else s.sawRunning j }
+  | .release k => if s.owner = some (k + 1) then { s with owner := none } else s
+
+/-- the probe that only reads the lock -/
+def lockedProbe (owner : Option Nat) : Bool := owner.isSome
+
 end OpenHTF.Kill
